@@ -14,7 +14,7 @@ except ImportError:  # pragma: no cover
 
 
 def fill_x(n):
-    return np.array([((i * 7) % 11) - 5 for i in range(n)], dtype=np.float64)
+    return (((np.arange(n, dtype=np.int64) * 7) % 11) - 5).astype(np.float64)
 
 
 def fill_k(n):
@@ -114,7 +114,7 @@ def run_config(item: dict):
                 olo, ohi = byte_bounds(out) if out.size else (lo, lo)
                 if out.size and not (lo <= olo and ohi <= hi):
                     return ("memory-bounds", (lo, hi), (olo, ohi), variant)
-        else:
+        elif "vals" in e:
             if [float(v) for v in out.ravel()] != [float(v) for v in e["vals"]]:
                 return ("values", list(e["vals"])[:12], [float(v) for v in out.ravel()][:12], variant)
     return None
